@@ -8,7 +8,10 @@ arithmetic and are never shown to the implementation side's comparison."""
 RULE = ("quick: every Appendix-A boundary date, every 1st of month 1970..9999 x the seven seconds-of-day of the "
         "quantifier ('day' cases, 7 instants each), 50k random instants (300 of them evaluated by the fuelled model "
         "loops without hint), additions from every month start 1970..2405 x {0,1s,1d,365d,366d,367d,1461d,36524d,"
-        "146097d,random} plus random valid starts and a malformed stream (invalid fields, durations >= 2^63). "
+        "146097d,random} plus random valid starts and a malformed stream (invalid fields, durations >= 2^63); 31 Dec / 1 Mar / "
+        "leap neighbourhood of every year and short walks around every multiple of the 4-, 100-, 400-year cycle lengths; 'logt' "
+        "cases: the `time` member of jsonl log lines for sequences of events (increasing, decreasing, shuffled around midnight, "
+        "leap days and year ends) sent through log() and rendered with LogEvent::write_jsonl in order on one thread. "
         "thorough: additionally EVERY day 1970-01-01..9999-12-31 x seven seconds-of-day ('walk' cases, exhaustive), "
         "every second of 22 selected days, 1M random instants, more additions. Non-trivial = the instant is not in "
         "1970-01-01 (new/day/walk/secs) or the duration is non-zero and accepted (add); distinct by full case text.")
@@ -146,6 +149,22 @@ def gen(rng, tier):
             else:
                 cases.append(walk_case(lo, min(2 * win + 2, LAST_DAY + 1 - lo)))
             k += cyc
+    # 2c. the `time` member of jsonl log lines: sequences of events rendered in the order given on one thread --
+    #     increasing, decreasing, around midnight / leap days / year ends in both directions, shuffled
+    def lt(s):
+        s = min(max(s, 0), END_9999 - 1)          # the property's range: the epoch through year 9999
+        y, m, d = civil_from_days(s // DAY)
+        return "%d:%d:%d:%d" % (s, y, m, d)
+    mids = [days_from_civil(y, m, d) * DAY for (y, m, d) in [(2024, 2, 29), (2024, 3, 1), (2023, 12, 31), (2024, 1, 1), (2100, 3, 1), (1970, 1, 2), (9999, 12, 31)]]
+    for t0 in mids:
+        cases.append("logt " + " ".join(lt(x) for x in (t0 + 5, t0 - 2, t0 - 1, t0, t0 + 86399, t0 - 86400, t0 + 86400)))
+        cases.append("logt " + " ".join(lt(x) for x in (t0 - 2, t0 - 1, t0, t0 + 1)))
+    for _ in range(300 if not thorough else 20000):
+        k = rng.randint(1, 8)
+        base = rng.randrange(2 * DAY, END_9999 - 3 * DAY)
+        xs = [base + rng.choice([0, 1, -1, DAY, -DAY, rng.randint(-2 * DAY, 2 * DAY), (base // DAY) * DAY - base, (base // DAY + 1) * DAY - base - 1])
+              for _ in range(k)]
+        cases.append("logt " + " ".join(lt(x) for x in xs))
     # 3. random instants
     n_rand = 1000000 if thorough else 50000
     for i in range(n_rand):
@@ -221,6 +240,9 @@ def _dur_class(secs):
 
 def classify(case, model):
     t = case.split()
+    if t[0] == "logt":
+        xs = [int(x.split(":")[0]) for x in t[1:]]
+        return "logt:%s" % ("increasing" if xs == sorted(xs) else "out-of-order")
     if t[0] == "new":
         s = int(t[1])
         return "new:%s:%s" % ("hinted" if len(t) > 2 else "fuelled", "y>9999" if s >= END_9999 else "y<=9999")
@@ -245,6 +267,8 @@ def nontrivial(case, model):
         return int(t[1]) >= DAY
     if t[0] == "add":
         return int(t[7]) > 0 and model.startswith("dt")
+    if t[0] == "logt":
+        return len(t) > 2        # at least two events rendered one after the other
     return False
 
 
